@@ -14,6 +14,7 @@ import Driver.Slash
 import Driver.Settle
 import Driver.Ledger
 import Driver.Lifecycle
+import Driver.Cover
 import Driver.Oracle
 import Driver.Claim
 open Driver
@@ -41,6 +42,7 @@ def dispatch (fam : String) : Option (List String → String → Option Res) :=
   | "slash" => some runSlash
   | "settle" => some runSettle
   | "lifecycle" => some runLifecycle
+  | "coversettle" => some runCover
   | "ledgerslash" => some runLedger
   | "ledgerhist" => some runLedger
   | "apphash" => some runAppHash
